@@ -29,6 +29,11 @@ pub struct SDesc {
     pub specific: Vec<SpecificDerive>,
     /// (from, to) in registration order
     pub substitutes: Vec<(String, String)>,
+    /// how the rules are registered: 0 = one `insert` per rule, 1 = ONE `extend` call with all of
+    /// them, 2 = one `insert_if_not_exists` per rule (the source paths are distinct, so all three
+    /// must give the same rule set)
+    #[serde(default)]
+    pub register_via: u8,
 }
 
 pub const LSB0_TARGET: &str = "::vrt::bits::Lsb0";
@@ -51,6 +56,7 @@ impl Default for SDesc {
                 ("bitvec::order::Lsb0".into(), LSB0_TARGET.into()),
                 ("bitvec::order::Msb0".into(), MSB0_TARGET.into()),
             ],
+            register_via: 0,
         }
     }
 }
@@ -100,10 +106,26 @@ impl SDesc {
             }
         }
         let mut substitutes = TypeSubstitutes::new();
-        for (from, to) in &self.substitutes {
-            substitutes
-                .insert(p(from), absolute_path(p(to)).expect("absolute target"))
-                .expect("valid substitute");
+        // a repeated source path (last one wins under insert/extend) keeps the plain `insert`
+        let distinct = {
+            let mut keys: Vec<String> = self.substitutes.iter().map(|(f, _)| strip_generics(f)).collect();
+            keys.sort();
+            keys.windows(2).all(|w| w[0] != w[1])
+        };
+        match (self.register_via, distinct) {
+            (1, true) => substitutes
+                .extend(self.substitutes.iter().map(|(from, to)| (p(from), absolute_path(p(to)).expect("absolute target"))))
+                .expect("valid substitutes"),
+            (2, true) => {
+                for (from, to) in &self.substitutes {
+                    substitutes.insert_if_not_exists(p(from), absolute_path(p(to)).expect("absolute target")).expect("valid substitute");
+                }
+            }
+            _ => {
+                for (from, to) in &self.substitutes {
+                    substitutes.insert(p(from), absolute_path(p(to)).expect("absolute target")).expect("valid substitute");
+                }
+            }
         }
         TypeGeneratorSettings {
             types_mod_ident: syn::parse_str(&self.root).unwrap(),
